@@ -60,8 +60,11 @@ def run(prog, world, sem, rep):
             if f[0] == "cmp" and f[1] == "Lt":
                 a = world.norm(resolve(f[2]))
                 b = world.norm(resolve(f[3]))
+                # epoch < now - last   or the equivalent   last + epoch < now   (strict in both spellings)
                 if sem.label(a) == stored(PARAMS, "epoch_period") and b.op == "bin" and b.info == "Sub":
                     return sem.label(b.args[0]) == ("env", "block", "time") and sem.label(b.args[1]) == stored(STATE, "last_unbonded_time")
+                if sem.label(b) == ("env", "block", "time") and a.op == "bin" and a.info == "Add":
+                    return {sem.label(x) for x in a.args} == {stored(PARAMS, "epoch_period"), stored(STATE, "last_unbonded_time")}
             return False
         g, d = site_guarded(sem, caller, bb, fp)
         rep.ob("C08.a", "roll-over call in %s" % caller.body.path, g,
